@@ -72,6 +72,18 @@ func (n *nonNeg) val(v ssa.Value, depth int) bool {
 			return n.val(x.X, depth+1) && n.val(x.Y, depth+1)
 		case token.AND:
 			return n.val(x.X, depth+1) || n.val(x.Y, depth+1)
+		case token.OR, token.XOR:
+			return n.val(x.X, depth+1) && n.val(x.Y, depth+1)
+		case token.SHL:
+			// a byte (or another value below 2^8) moved up by less than three octets stays below 2^31
+			if k, ok := flow.ConstInt(x.Y); ok && k >= 0 && k <= 16 {
+				if cv, isConv := x.X.(*ssa.Convert); isConv {
+					if bt, isB := cv.X.Type().Underlying().(*types.Basic); isB && (bt.Kind() == types.Uint8 || bt.Kind() == types.Byte) {
+						return true
+					}
+				}
+			}
+			return false
 		case token.REM, token.QUO, token.SHR:
 			return n.val(x.X, depth+1) && n.val(x.Y, depth+1)
 		case token.SUB:
